@@ -81,6 +81,16 @@ def modify(atoms, mod):
         d = mod["number_top"] - max(a["resseq"] for a in out)
         for a in out:
             a["resseq"] += d
+    if mod.get("long_name") and fits(out) and not any([mod.get("serial_top"), mod.get("number_top"), mod.get("later_models_shift")]):
+        # a table within the three limits that carries a five-character component id (issued by wwPDB since 2023) or a
+        # five-character atom name: none of the stated limits is concerned, the table "already fits"
+        first = (out[0]["chain"], out[0]["resseq"], out[0]["icode"])
+        for a in out:
+            if (a["chain"], a["resseq"], a["icode"]) == first:
+                if mod["long_name"] == "resname":
+                    a["resname"] = "A1LU6"
+                elif a is out[0]:
+                    a["name"] = "C1'AB"
     if mod.get("later_models_shift"):
         # ensembles whose atom ids / residue numbers run on from model to model: only the later models exceed a limit
         first = min(a["model"] for a in out)
@@ -275,7 +285,7 @@ def oracle(case):
         return []
     dialect = effective_dialect(case, atoms)
     sources = [("cif", parse_cif_atoms(atomtab.emit_cif(atoms, case.get("null", "?"), dialect=dialect)))]
-    if fits(atoms) and not case.get("oversize"):
+    if fits(atoms) and not case.get("oversize") and all(len(a["resname"]) <= 3 and len(a["name"]) <= 4 for a in atoms):
         sources.append(("pdb", parse_pdb_atoms(atomtab.emit_pdb(atoms, always_model=True))))
     for tag, df in sources:
         judge(tag, atoms, df, feas, out)
@@ -288,7 +298,8 @@ def oracle(case):
                 f2 = feasibility(sub_atoms)
                 if f2 != "grey":
                     judge(f"{tag}:sub-{sel[0]}", sub_atoms, sub_df, f2, out)
-        if tag == "cif" and case.get("edit_copy") and not case.get("oversize"):
+        long_names = any(len(a["resname"]) > 3 or len(a["name"]) > 4 for a in atoms)
+        if tag == "cif" and case.get("edit_copy") and not case.get("oversize") and not long_names:
             # a pandas copy of a table that was just asked about, edited afterwards (one chain renamed to a
             # three-character name / one chain's numbers moved above 9999): a table in its own right, whose answer is its own
             chains = []
@@ -327,7 +338,7 @@ def oracle_splitter(case):
     from rnapolis.parser_v2 import parse_pdb_atoms
     from rnaverif.runner import WORK_DIR
 
-    atoms = modify(case["atoms"], case.get("mod", {}))
+    atoms = modify(case["atoms"], dict(case.get("mod", {}), long_name=None))  # (names longer than the PDB columns cannot be written: library-level check only)
     os.makedirs(WORK_DIR, exist_ok=True)
     base = os.path.join(WORK_DIR, f"c10split_{os.getpid()}")
     shutil.rmtree(base, ignore_errors=True)
@@ -400,7 +411,7 @@ def oracle_unifier(case):
     from rnapolis.parser_v2 import parse_pdb_atoms
     from rnaverif.runner import WORK_DIR
 
-    atoms = modify(case["atoms"], case.get("mod", {}))
+    atoms = modify(case["atoms"], dict(case.get("mod", {}), long_name=None))  # (names longer than the PDB columns cannot be written: library-level check only)
     want = [a for a in atoms if a["resname"] in ("A", "C", "G", "U")]
     info = case.setdefault("_info", {})
     if not want or feasibility(atoms) != "feasible":
@@ -565,6 +576,7 @@ def st_cases():
         "serial_shift": st.sampled_from([0, 0, 100000, 12345678]),
         "serial_top": st.sampled_from([0, 0, 0, 99999, 100000]),
         "number_top": st.sampled_from([0, 0, 0, 9999, 10000]),
+        "long_name": st.sampled_from([None, None, None, "resname", "atomname"]),
         "interleave": st.booleans(),
         "long_only": st.sampled_from([0, 0, 1, 2]),
         "model_chains": st.sampled_from([False, False, True]),
